@@ -10,7 +10,7 @@ RULE = ("TLC enumerates power-level contents for room versions 3-11: actor level
         "on the model for every configuration; each configuration is replayed through the real RoomPowerLevels helpers, the real "
         "push condition and the real auth_check. Non-trivial = specified (well-formed state for the version).")
 
-HELPERS = ["ban", "kick", "unban", "invite", "msg", "topic", "topicmsg", "tpi", "notif", "la", "lb"]
+HELPERS = ["ban", "kick", "unban", "invite", "msg", "topic", "topicmsg", "tpi", "aliases", "notif", "la", "lb"]
 
 
 def run(rep, tier):
@@ -39,12 +39,16 @@ def run(rep, tier):
         tm = c["tm"]
         pairs = [("ban", "a_ban", True), ("kick", "a_leave", tm in ("join", "invite")), ("unban", "a_leave", tm == "ban"),
                  ("invite", "a_invite", tm in ("leave", "absent")), ("msg", "a_msg", True), ("topic", "a_topic", True),
-                 ("topicmsg", "a_topicmsg", True), ("tpi", "a_tpi", True)]
+                 ("topicmsg", "a_topicmsg", True), ("tpi", "a_tpi", True), ("aliases", "a_aliases", True)]
         for hk, ak, applies in pairs:
             if o[ak] != c[ak]:
                 rep.violation("auth/%s-differs-from-model" % ak, {"case": c, "observed": o})
             if applies and h[hk] != (o[ak] == "allow"):
-                rep.violation("helper-%s-disagrees-with-auth_check" % hk, {"case": c, "helper": h[hk], "auth": o[ak]})
+                if hk == "aliases" and c["aliases_special"]:
+                    # room versions up to 5 allow m.room.aliases under the sender's server name whatever the levels
+                    rep.violation("helper-aliases-disagrees-with-auth_check/room-versions-with-the-special-rule-for-aliases", {"case": c, "helper": h[hk], "auth": o[ak]})
+                else:
+                    rep.violation("helper-%s-disagrees-with-auth_check" % hk, {"case": c, "helper": h[hk], "auth": o[ak]})
     rep.sample({"case": cases[len(cases) // 3], "observed": obs[len(cases) // 3]})
     rep.cov["evaluations"] = len(cases)
     rep.cov["distinct_nontrivial"] = nontriv
